@@ -164,27 +164,36 @@ func r7QuoteEscapes(w *World, r *Report, rule string) {
 		panic(undecided{"parse.lexQuote / lexer.next"})
 	}
 	sym := NewSym(w)
-	var reads []*ssa.Call
-	for _, b := range f.Blocks {
-		for _, in := range b.Instrs {
-			if c, ok := in.(*ssa.Call); ok && c.Call.StaticCallee() == next {
-				if _, inLoop := loopOf(f, b); inLoop {
-					reads = append(reads, c)
+	ok := false
+	// the scan of the string's body: in lexQuote or in a function of the package it hands the scan to
+	cands := []*ssa.Function{f}
+	for g := range calleesDeep(f, 0) {
+		if g != next && g.Pkg == f.Pkg && g.Blocks != nil {
+			cands = append(cands, g)
+		}
+	}
+	for _, sf := range cands {
+		var reads []*ssa.Call
+		for _, b := range sf.Blocks {
+			for _, in := range b.Instrs {
+				if c, isC := in.(*ssa.Call); isC && c.Call.StaticCallee() == next {
+					if _, inLoop := loopOf(sf, b); inLoop {
+						reads = append(reads, c)
+					}
 				}
 			}
 		}
-	}
-	ok := false
-	for _, first := range reads {
-		k := sym.Key(first, nil)
-		for _, second := range reads {
-			if second == first {
-				continue
-			}
-			l, _ := loopOf(f, second.Block())
-			cond := sym.PathCond(l.Header, second.Block(), nil)
-			if vals, decided := pcValuesWhen(cond, k); decided && vals.equal(isetOf('\\')) {
-				ok = true
+		for _, first := range reads {
+			k := sym.Key(first, nil)
+			for _, second := range reads {
+				if second == first {
+					continue
+				}
+				l, _ := loopOf(sf, second.Block())
+				cond := sym.PathCond(l.Header, second.Block(), nil)
+				if vals, decided := pcValuesWhen(cond, k); decided && vals.equal(isetOf('\\')) {
+					ok = true
+				}
 			}
 		}
 	}
